@@ -1682,6 +1682,8 @@ func genIdx(t *rapid.T, n int, label string) int {
 
 func replayCase(sub string, raw json.RawMessage) string {
 	switch sub {
+	case "pairs":
+		return replayPairs(raw)
 	case "length", "slice", "index", "find":
 		var c cpCase
 		if err := json.Unmarshal(raw, &c); err != nil {
@@ -2000,6 +2002,39 @@ func TestC14(t *testing.T) {
 		}
 		return c
 	}, ntFind, checkFind)
+
+	// several regex calls sharing one compiled program (one regexp cache)
+	for i, c := range handPairs {
+		if !rec.Mine(i) {
+			continue
+		}
+		rec.Eval()
+		rec.Class("law/pairs")
+		kb, _ := json.Marshal(c)
+		rec.NT("pairs\x00" + string(kb))
+		if msg := checkPairs(c); msg != "" {
+			report("pairs", c, msg)
+		}
+	}
+	rec.Rapid(t, "pairs", rec.Scale(30000, 900000), func(t *rapid.T) {
+		c, kind := genPairs(t)
+		rec.Eval()
+		rec.Class("law/pairs")
+		rec.Class("pairs/kind/" + kind)
+		rec.Class("pairs/mode/" + c.Mode)
+		nt, class := ntPairs(c)
+		if class != "" {
+			rec.Class("pairs/relation/" + class)
+		}
+		if nt {
+			b, _ := json.Marshal(c)
+			rec.NT("pairs\x00" + string(b))
+			rec.Sample(map[string]any{"law": "pairs", "case": c})
+		}
+		if msg := checkPairs(c); msg != "" {
+			t.Fatalf("%s", rec.Fail("pairs", c, "%s", msg))
+		}
+	})
 }
 
 func sp(s string) *string { return &s }
